@@ -430,6 +430,130 @@ theorem key_case_neutral (ve : Str → Bool) (pre post : List Str) (l l' key key
     obtain ⟨d, hcur⟩ := inside_rule_of_header ve pre st hpre hh
     simp only [run, step, stepS_key_case ve st d _ (strip l) (strip l') key key' rest hcur hl hl' hc hc' hs hs' hlow]
 
+/-! ## `tags:` — exactly the stated tags, whatever is nested inside their parentheses -/
+
+/-- scan of ONE tag starting at parenthesis depth `d`: `none` if a comma is met at depth 0, else the depth at its end -/
+def tagScan : Str → Int → Option Int
+  | [], d => some d
+  | c :: cs, d =>
+    if c == '(' then tagScan cs (d + 1)
+    else if c == ')' then tagScan cs (d - 1)
+    else if c == ',' && d == 0 then none
+    else tagScan cs d
+
+/-- a CLOSED tag: its parentheses balance and none of its commas is outside them.  Nothing is asked of what is inside the
+parentheses: further calls to any depth, commas at any depth, string literals holding commas / parentheses / braces. -/
+def closedTag (t : Str) : Bool := tagScan t 0 == some 0
+
+/-- `", ".join(tags)` without the blank (a blank, if wanted, is part of the next tag and stripped from it) -/
+def joinTags : List Str → Str
+  | [] => []
+  | [t] => t
+  | t :: u :: r => t ++ ',' :: joinTags (u :: r)
+
+/-- what `tags.add(tag.strip())` (skipped when empty) does with the stated tag `t` -/
+def addTag (acc : List Str) (t : Str) : List Str := if (strip t).isEmpty then acc else setAdd (strip t) acc
+
+private theorem tagsLoop_scan (t rest : Str) (d d' : Int) (cur : Str) (tags : List Str) (h : tagScan t d = some d') :
+    tagsLoop (t ++ rest) d cur tags = tagsLoop rest d' (t.reverse ++ cur) tags := by
+  induction t generalizing d cur with
+  | nil => simp only [tagScan] at h; cases h; simp
+  | cons c cs ih =>
+    simp only [tagScan] at h
+    simp only [List.cons_append, tagsLoop, List.reverse_cons, List.append_assoc]
+    by_cases h1 : (c == '(') = true
+    · simp only [h1, if_true] at h ⊢; exact ih _ _ h
+    · simp only [h1] at h ⊢
+      by_cases h2 : (c == ')') = true
+      · simp only [h2, if_true] at h ⊢; exact ih _ _ h
+      · simp only [h2] at h ⊢
+        by_cases h3 : (c == ',' && d == 0) = true
+        · simp [h3] at h
+        · simp only [h3] at h ⊢; exact ih _ _ h
+
+private theorem pushTag_reverse (t : Str) (tags : List Str) : pushTag t.reverse tags = addTag tags t := by
+  simp [pushTag, addTag]
+
+private theorem tagsLoop_join (ts : List Str) (hne : ts ≠ []) (hall : ∀ t ∈ ts, closedTag t = true) (tags : List Str) :
+    tagsLoop (joinTags ts) 0 [] tags = ts.foldl addTag tags := by
+  induction ts generalizing tags with
+  | nil => exact absurd rfl hne
+  | cons t r ih =>
+    have ht : tagScan t 0 = some 0 := by
+      have := hall t (by simp); simpa [closedTag] using this
+    cases r with
+    | nil =>
+      have := tagsLoop_scan t [] 0 0 [] tags ht
+      simp only [List.append_nil] at this
+      simp only [joinTags, this, tagsLoop, pushTag_reverse, List.foldl]
+    | cons u r' =>
+      have := tagsLoop_scan t (',' :: joinTags (u :: r')) 0 0 [] tags ht
+      simp only [List.append_nil] at this
+      simp only [joinTags, this, List.foldl]
+      have hc : tagsLoop (',' :: joinTags (u :: r')) 0 t.reverse tags = tagsLoop (joinTags (u :: r')) 0 [] (pushTag t.reverse tags) := by
+        simp [tagsLoop]
+      rw [hc, pushTag_reverse]
+      exact ih (by simp) (fun x hx => hall x (by simp [hx])) _
+
+/-- *every section yields … exactly the stated properties*, clause for `tags:` — for ANY list of closed tags (parentheses balance,
+no comma outside them; arbitrary nesting, commas and string literals inside), the value `t₁,t₂,…,tₙ` is read as exactly those tags:
+each trimmed, empty ones skipped, duplicates once, in order of first appearance.  No tag is ever cut at a comma inside its
+parentheses, however deep the comma sits and whatever follows it. -/
+theorem tags_exactly_the_stated (ts : List Str) (hall : ∀ t ∈ ts, closedTag t = true) :
+    splitTags (joinTags ts) = ts.foldl addTag [] := by
+  cases ts with
+  | nil => simp [splitTags, joinTags, tagsLoop, pushTag, strip, rstrip, lstrip]
+  | cons t r => exact tagsLoop_join (t :: r) (by simp) hall []
+
+private theorem mem_foldl_addTag (ts : List Str) (acc : List Str) (x : Str) :
+    x ∈ ts.foldl addTag acc ↔ x ∈ acc ∨ ∃ t ∈ ts, x = strip t ∧ x ≠ [] := by
+  induction ts generalizing acc with
+  | nil => simp
+  | cons t r ih =>
+    simp only [List.foldl, ih, List.mem_cons, exists_eq_or_imp]
+    unfold addTag setAdd
+    by_cases he : (strip t).isEmpty = true
+    · have : strip t = [] := by simpa using he
+      simp only [he, if_true]
+      constructor
+      · rintro (h | h)
+        · exact .inl h
+        · exact .inr (.inr h)
+      · rintro (h | ⟨h, hx⟩ | h)
+        · exact .inl h
+        · exact absurd (h.trans this) hx
+        · exact .inr h
+    · have hne : strip t ≠ [] := by simpa using he
+      simp only [he]
+      by_cases hc : acc.contains (strip t) = true
+      · have hm : strip t ∈ acc := by simpa using hc
+        simp only [hc, if_true]
+        constructor
+        · rintro (h | h)
+          · exact .inl h
+          · exact .inr (.inr h)
+        · rintro (h | ⟨h, _⟩ | h)
+          · exact .inl h
+          · exact .inl (h ▸ hm)
+          · exact .inr h
+      · simp only [hc]
+        constructor
+        · rintro (h | h)
+          · rcases List.mem_append.mp h with h | h
+            · exact .inl h
+            · have : x = strip t := by simpa using h
+              exact .inr (.inl ⟨this, this ▸ hne⟩)
+          · exact .inr (.inr h)
+        · rintro (h | ⟨h, _⟩ | h)
+          · exact .inl (List.mem_append.mpr (.inl h))
+          · exact .inl (List.mem_append.mpr (.inr (by simp [h])))
+          · exact .inr h
+
+/-- the same as a statement about the SET of tags: `x` is a tag of the rule iff it is the trimmed, non-empty text of a stated tag -/
+theorem tag_mem_iff_stated (ts : List Str) (hall : ∀ t ∈ ts, closedTag t = true) (x : Str) :
+    x ∈ splitTags (joinTags ts) ↔ ∃ t ∈ ts, x = strip t ∧ x ≠ [] := by
+  rw [tags_exactly_the_stated ts hall, mem_foldl_addTag]; simp
+
 /-! ## non-vacuity: the hypotheses are satisfiable, the conclusions are about real files (kernel-checked) -/
 
 instance exceptDecEq {ε α : Type} [DecidableEq ε] [DecidableEq α] : DecidableEq (Except ε α) := fun a b =>
@@ -497,5 +621,13 @@ example : Impl.parseViewsFile veAll noWord [s "[A]", s "x = 1", s "", s "[B]", s
 example : Impl.parseViewsFile veAll noWord [s "[A]", s "filter: y", s "Filter: z"] = .error (3, .unexpectedContent) := by decide +kernel
 example : Impl.parseViewsFile veAll noWord [s "[A]", s "  [B]", s "filter: y"] = .error (2, .unexpectedContent) := by decide +kernel
 example : Impl.parseViewsFile veBad noWord [s "[A]", s "filter: contains(\"NETFLIX\""] = .error (2, .invalidFilterExpr) := by decide +kernel
+
+-- tags: a nested call AFTER an argument comma, a regex group inside a string literal, a comma inside a string literal inside a call
+def tagsEx : List Str := [s "{split(field.holder, lowercase(\" \"), 0)}", s " card", s " {extract(field.memo, \"REF (\\d+), (x)\")} ", s "card"]
+example : (tagsEx.all closedTag) = true := by decide +kernel
+example : splitTags (joinTags tagsEx) =
+    [s "{split(field.holder, lowercase(\" \"), 0)}", s "card", s "{extract(field.memo, \"REF (\\d+), (x)\")}"] := by decide +kernel
+-- not closed: a comma outside parentheses (inside quotes only) does separate
+example : closedTag (s "{\"a,b\"}") = false ∧ splitTags (s "{\"a,b\"}") = [s "{\"a", s "b\"}"] := by decide +kernel
 
 end TallyVerif.Props.C17
